@@ -126,7 +126,7 @@ fn speed_pts(p: &PathTpc) -> Vec<(f64, f64)> {
 }
 
 /// C02 / C13 on the current path (prefix of the route)
-fn check_speeds(ctx: &mut Ctx, p: &PathTpc, links: &[Link], route_done: &[usize], t: &TrainSpec, after: &str) {
+fn check_speeds(ctx: &mut Ctx, p: &PathTpc, links: &[Link], route_done: &[usize], t: &TrainSpec, after: &str, ulp_slack: bool) {
     let pts = speed_pts(p);
     let tr = train_ref(t);
     let restr = route_restrictions(links, route_done, &tr);
@@ -161,6 +161,14 @@ fn check_speeds(ctx: &mut Ctx, p: &PathTpc, links: &[Link], route_done: &[usize]
         }
     };
     for w in bps.windows(2) {
+        // after a JSON reload offsets may have moved by one unit in the last place (the statement's own
+        // allowance): exact breakpoints and slivers between nearly coincident breakpoints are not evaluated
+        if ulp_slack {
+            if w[1] - w[0] > 1e-6 {
+                eval(0.5 * (w[0] + w[1]));
+            }
+            continue;
+        }
         eval(0.5 * (w[0] + w[1]));
         eval(w[0]); // breakpoint approached from the right
     }
@@ -335,7 +343,7 @@ pub fn execute(case: &Case, ctx: &mut Ctx) {
     let mut p = PathTpc::new(tp);
     let mut done = 0usize;
     let mut n_ext = 0;
-    let mut json_used = false;
+    let json_used = std::cell::Cell::new(false);
     let do_extend = |ctx: &mut Ctx, p: &mut PathTpc, done: &mut usize, k: usize, what: &str| -> bool {
         let k = k.min(route.len() - *done);
         ctx.layer = "path.extend";
@@ -343,7 +351,7 @@ pub fn execute(case: &Case, ctx: &mut Ctx) {
             Ok(()) => {
                 *done += k;
                 ctx.hit("stat.extend_calls");
-                check_speeds(ctx, p, links, &route[..*done], &case.train, what);
+                check_speeds(ctx, p, links, &route[..*done], &case.train, what, json_used.get());
                 check_geometry(ctx, p, links, &route[..*done], &case.train, false, what);
                 for sp in p.speed_points() {
                     ctx.trace.f(sp.offset.value);
@@ -387,7 +395,7 @@ pub fn execute(case: &Case, ctx: &mut Ctx) {
                     Ok((q, used)) => {
                         if used && *fmt == Fmt::Json {
                             // parser rounding of one ulp per number is allowed for JSON: no bit-exact differential afterwards
-                            json_used = true;
+                            json_used.set(true);
                         }
                         if used && *fmt != Fmt::Json && q != p {
                             ctx.violate("C17", "roundtrip", "reloaded half-built path equals the original", format!("{fmt:?} reload of PathTpc differs"));
@@ -442,7 +450,7 @@ pub fn execute(case: &Case, ctx: &mut Ctx) {
     // differential, bit-exact: any partition == one call
     ctx.layer = "path.extend";
     let mut whole = PathTpc::new(tp);
-    if whole.extend(links, &lroute).is_ok() && !json_used {
+    if whole.extend(links, &lroute).is_ok() && !json_used.get() {
         if whole != p {
             let what = if whole.speed_points() != p.speed_points() { "speed points" } else if whole.grades() != p.grades() { "grades" } else if whole.curves() != p.curves() { "curves" } else if whole.link_points() != p.link_points() { "link points" } else { "other" };
             ctx.violate("C06", "differential", "any sequence of extensions = one call (bit-exact)", format!("{what} differ between the {}-op history and the one-call build", case.ops.len()));
